@@ -34,6 +34,7 @@ pub fn profile(id: &str) -> Option<Profile> {
     let mut o = Oracles::default();
     let (kind, quick, thorough) = match id {
         "C01" => {
+            g.l1_short_pct = 8;
             o.flush_reopen = false;
             o.need_flush = false;
             (Kind::Engine, 6000, 300_000)
@@ -48,6 +49,7 @@ pub fn profile(id: &str) -> Option<Profile> {
         }
         "C03" => {
             g.tiny_cache_pct = 60;
+            g.l1_short_pct = 8;
             g.frag_pct = 15;
             g.op_weights = [40, 5, 15, 14, 4, 6, 0, 0, 1];
             o.flush_reopen = false;
@@ -73,6 +75,7 @@ pub fn profile(id: &str) -> Option<Profile> {
         }
         "C07" => {
             g.growth_pct = 4;
+            g.l1_short_pct = 6;
             g.par_pct = 80;
             g.max_clients = 8;
             g.max_ops_per_client = 4;
@@ -92,6 +95,7 @@ pub fn profile(id: &str) -> Option<Profile> {
         }
         "C08" => {
             g.frag_pct = 20;
+            g.l1_short_pct = 8;
             g.growth_pct = 3;
             g.reuse_cycles_pct = 12;
             g.par_pct = 25;
@@ -135,6 +139,7 @@ pub fn profile(id: &str) -> Option<Profile> {
         }
         "C16" => {
             g.growth_pct = 4;
+            g.l1_short_pct = 6;
             g.allow_big_bs = true;
             g.force_compressed = false;
             g.op_weights = [40, 25, 12, 8, 3, 6, 1, 0, 3];
@@ -146,6 +151,7 @@ pub fn profile(id: &str) -> Option<Profile> {
         }
         "C18" => {
             g.par_pct = 60;
+            g.l1_short_pct = 6;
             g.max_clients = 5;
             g.tiny_cache_pct = 60;
             g.op_weights = [45, 5, 15, 20, 8, 0, 0, 0, 2];
@@ -372,11 +378,7 @@ pub fn run_engine(p: &Profile, seed: u64, run: u64, ov: &Override, want_case: bo
             };
             out.viols.push(Viol {
                 props: vec![p.id],
-                sig: format!(
-                    "{}{taint}{}",
-                    panic_sig(&info),
-                    if cfg_short_l1(&cfg) { "/short-l1-table" } else { "" }
-                ),
+                sig: format!("{}{taint}", panic_sig(&info)),
                 detail: format!("panic: {info}"),
                 step: 0,
                 nonfatal: false,
